@@ -14,6 +14,7 @@ def main(tier):
     crys = CRYS_Q if tier == 'quick' else CRYS_T
     sups = SUP_Q if tier == 'quick' else SUP_T
     args = [(c, s, tier, SEED, k, v) for k in ('interstitial', 'vacancy') for c in crys for s in sups for v in (('default', 'custom') if s == sups[0] else ('default',))]
+    if tier == 'quick': args += [('L12', 'sheared', tier, SEED, 'interstitial', 'default')]      # an endpoint that no state maps onto
     runner.run(rep, 'supercelltar-contract', A.w_tar, args, 'onsager/automator.py::supercelltar')
     runner.run(rep, 'map2string-contract', A.w_map2string, [(tier, SEED)], 'onsager/automator.py::map2string')
     from vf import extract
